@@ -490,6 +490,15 @@ func genInts(r *vgen.Rand, n int) []int64 {
 		if r.Chance(1, 15) {
 			v = 0
 		}
+		if r.Chance(1, 7) { // int64 extremes whose float64 conversion is exact: +-2^k, k = 52..62, and MinInt64 = -2^63
+			v = int64(1) << uint(r.Range(52, 62))
+			if r.Bool() {
+				v = -v
+			}
+			if r.Chance(1, 4) {
+				v = math.MinInt64
+			}
+		}
 		out[i] = v
 	}
 	return out
@@ -1103,6 +1112,15 @@ func main() {
 	addExpo(20, 4, false, false, false, [][]float64{{-1, 0.5, 7, 100}, {0}, {4, 8}, {2, -2}}, nil, "corpus-expo-reuse")
 	reuse = false
 
+	// int64 extremes with an exact float64 conversion, both signs, in sequences
+	ext := []int64{math.MinInt64, -(1 << 62), 1 << 62, -(1 << 53), 1 << 53, 1 << 52, -(1 << 52), 3, -3, 0}
+	for _, c := range [][2]int32{{160, 20}, {4, 0}, {2, -10}, {3, 5}} {
+		addExpo(c[0], c[1], false, false, true, nil, [][]int64{ext}, "corpus-int-extremes")
+		addExpo(c[0], c[1], false, true, true, nil, [][]int64{{math.MinInt64}, {1 << 62, -(1 << 62)}, {math.MinInt64, 1}}, "corpus-int-extremes")
+	}
+	addExplicit([]float64{-0x1p63, -0x1p62, 0, 0x1p62, 0x1p63}, 0, false, true, nil, [][]int64{ext}, "corpus-int-extremes")
+	addExplicit([]float64{math.Nextafter(-0x1p63, 0), -0x1p53, 0x1p53}, 0, true, true, nil, [][]int64{{math.MinInt64}, ext}, "corpus-int-extremes")
+
 	// scaleChange's iteration cap: exactly 30 shifts (scale 20 -> -10) in one step, and one more than fits
 	addExpo(3, 20, false, false, false, [][]float64{{math.SmallestNonzeroFloat64, math.MaxFloat64}}, nil, "corpus-expo")
 	addExpo(2, 20, false, false, false, [][]float64{{1, math.MaxFloat64}}, nil, "corpus-expo")
@@ -1268,6 +1286,14 @@ func main() {
 			w.Add(vgen.App("CBigInt", vgen.Z(v), fnum(bound), ncounts(ob.counts), vgen.Z(int64(s)), vgen.Z(int64(bin))), desc, kind, true)
 		})
 	}
+	for _, sc := range []int32{0, -1, -3} {
+		addBigInt(math.MinInt64, -0x1p63, sc, "corpus-bigint")   // |float64(v)| = 2^63 exactly: bucket 62 at scale 0
+		addBigInt(math.MinInt64, -0x1p62, sc, "corpus-bigint")
+		addBigInt(math.MinInt64+1, -0x1p63, sc, "corpus-bigint") // rounds to -2^63 (F-C07-4 class)
+		addBigInt(math.MinInt64+2, math.Nextafter(-0x1p63, 0), sc, "corpus-bigint")
+		addBigInt(-(1 << 62), -0x1p62, sc, "corpus-bigint")
+		addBigInt(1<<62, 0x1p62, sc, "corpus-bigint")
+	}
 	addBigInt(1<<53+1, 0x1p53, 0, "corpus-bigint") // F-C07-4 instance: counted in (-inf, 2^53], expo bucket 52
 	addBigInt(1<<53, 0x1p53, 0, "corpus-bigint")
 	addBigInt(-(1<<53 + 1), -0x1p53, 0, "corpus-bigint")
@@ -1279,6 +1305,9 @@ func main() {
 		}
 		if r.Chance(1, 8) {
 			v = math.MaxInt64 - int64(r.Intn(3))
+		}
+		if r.Chance(1, 8) {
+			v = math.MinInt64 + int64(r.Intn(3))
 		}
 		if r.Chance(1, 4) {
 			v = -v
